@@ -1,16 +1,18 @@
 /-
-  C06 (comments) — text, VML shapes and the positional join: no comment moves, swaps or is duplicated.
+  C06 (comments) — text, VML shapes and their join to the comments by the cell a note shape names: no comment
+  moves, swaps or is duplicated, in the library's own output and in parts whose shapes are in another order.
 
   Model: `Umya/Model/AnnotComment.lean` (element-tree level; see its header for what is and is not
   modelled).  `writeComments tbl cs` / `writeVml cs` are the trees an XML 1.0 reader delivers for the two
   parts `writer/xlsx/comment.rs` and `writer/xlsx/vml_drawing.rs` emit for the comment list `cs`;
-  `readComments` / `readVml` are `reader/xlsx/comment.rs` / `vml_drawing.rs` on such trees; `joinByPosition`
-  is the `comment_index` loop.  `tbl` is the authors table in whatever order the writer's hash set gave.
+  `readComments` / `readVml` are `reader/xlsx/comment.rs` / `vml_drawing.rs` on such trees; `joinShapes`
+  is the loop of `vml_drawing::read` (fix b524a98a: by the cell `x:Row` / `x:Column` name; `joinByPosition` is the
+  loop before that fix).  `tbl` is the authors table in whatever order the writer's hash set gave.
 
   Tie to the code on every run: the `cmt` request family (`harness/src/c06cmt.rs`, `Umya/Driver/C06Comment.lean`):
   the real `comments{n}.xml` and `vmlDrawing{n}.vml` of a saved workbook, lexed by the independent XML reader,
   are tree-equal (modelled slice) to `writeComments` / `writeVml` of the values set through the public API,
-  and `joinByPosition (readComments …) (readVml …)` of the real parts equals the reloaded getters.
+  and `joinShapes (readComments …) (readVml …)` of the real parts equals the reloaded getters.
 -/
 import Umya.Lemmas.AnnotComment
 import Umya.Lemmas.XmlChannel
@@ -63,11 +65,12 @@ example : readText (writeText [⟨"R&D <1>".toList, some exRpr⟩, ⟨"  two\n l
 
 /-- **Both writers emit in list order.**  The i-th `<comment>` element of the comments part is the i-th
     comment of the sheet's list and the i-th `v:shape` of the VML part (id 1025 + i) is the shape of that
-    same comment: insertion order in both parts, nothing sorted, for any number of comments. -/
+    same comment, with `x:Row` / `x:Column` naming that comment's cell (`Comment.writtenShape`): insertion order
+    in both parts, nothing sorted, for any number of comments. -/
 theorem C06_comment_vml_order (tbl : List (List Char)) (cs : List Comment) (l : List Node)
     (h : writeCommentList tbl cs = some l) (i : Nat) :
     l[i]? = (cs[i]?).bind (writeComment tbl) ∧
-    (shapeNodes (writeVml cs))[i]? = (cs[i]?).map (fun c => shapeElem (1025 + i) c.shape) := by
+    (shapeNodes (writeVml cs))[i]? = (cs[i]?).map (fun c => shapeElem (1025 + i) c.writtenShape) := by
   refine ⟨writeCommentList_order tbl cs l h i, ?_⟩
   rw [shapeNodes_writeVml]
   exact shapeElems_order 1025 cs i
@@ -75,33 +78,34 @@ theorem C06_comment_vml_order (tbl : List (List Char)) (cs : List Comment) (l : 
 /-! ### round trip -/
 
 /-- **Comments round trip.**  For ANY list of comments (any number, any cells — adjacent or not, distinct or
-    not —, any insertion order, any texts, authors, anchors, hidden / visible mixes) that is well formed
-    (`WF`: the Rust field ranges, authors in the table, every shape carries an `x:Column`), saving and
-    reloading returns the same list in the same order up to `norm`: the i-th shape is joined to the i-th
-    comment. -/
+    not —, any insertion order, any texts, authors, anchors, hidden / visible mixes, shapes with or without
+    `x:Row` / `x:Column`, with targets that name the comment's cell or another one) that is well formed
+    (`WF`: the Rust field ranges, authors in the table, the cell a cell), saving and reloading returns the same
+    list in the same order up to `norm`: every comment comes back with its own shape, whose `x:Row` / `x:Column`
+    name the comment's cell. -/
 theorem C06_comment_roundtrip (tbl : List (List Char)) (cs : List Comment) (h : WF tbl cs) :
     reload tbl cs = some (cs.map Comment.norm) := by
   obtain ⟨n, h1, h2⟩ := readComments_write tbl cs h
-  have h3 := readVml_write cs (fun c hc => (h.2 c hc).2.2.2)
-  have hf : (cs.map fun c => c.shape.norm).filter (fun s => s.col.isSome) = cs.map fun c => c.shape.norm := by
-    apply List.filter_eq_self.2
-    intro s hs
-    obtain ⟨c, hc, e⟩ := List.mem_map.1 hs
-    subst e
-    exact shape_norm_col_isSome _ (h.2 c hc).2.2.2.2.2.2
-  simp only [reload, h1, h2, h3, joinByPosition_zip, hf, zipShapes_written]
+  have h3 := readVml_write cs (fun c hc => writtenShape_WF c (h.2 c hc).1 (h.2 c hc).2.2.2.2)
+  have hv := written_valid cs (fun c hc => ⟨(h.2 c hc).1.1, (h.2 c hc).2.1⟩)
+  simp only [reload, h1, h2, h3, joinShapes_valid _ _ hv, written_all_notes, zipShapes_written]
 
-/-- `norm` only fills in the `0` a valueless row / column holder is written as: cell, author, text, style,
-    anchor, visibility and the two flags are untouched, the getters `get_value()` of `x:Row` / `x:Column`
-    (which answer `0` for a valueless holder) see no difference, and `norm` is idempotent. -/
+/-- `norm` only sets the cell the shape names (`x:Row` / `x:Column`, zero-based) to the comment's own cell:
+    cell, author, text, style, anchor, visibility and the two flags are untouched; for a comment whose shape
+    already names its cell (what `new_comment` builds) `norm` changes nothing; `norm` is idempotent. -/
 theorem C06_comment_norm (c : Comment) :
     c.norm.cell = c.cell ∧ c.norm.author = c.author ∧ c.norm.text = c.text ∧ c.norm.shape.anchor = c.shape.anchor ∧
     c.norm.shape.style = c.shape.style ∧ c.norm.shape.visible = c.shape.visible ∧
     c.norm.shape.moveWithCells = c.shape.moveWithCells ∧ c.norm.shape.sizeWithCells = c.shape.sizeWithCells ∧
-    c.norm.shape.row.map (·.getD 0) = c.shape.row.map (·.getD 0) ∧ c.norm.shape.col.map (·.getD 0) = c.shape.col.map (·.getD 0) ∧
+    c.norm.shape.row = some (some (c.cell.row - 1)) ∧ c.norm.shape.col = some (some (c.cell.col - 1)) ∧
+    (c.shape.row = some (some (c.cell.row - 1)) → c.shape.col = some (some (c.cell.col - 1)) → c.norm = c) ∧
     c.norm.norm = c.norm := by
+  refine ⟨rfl, rfl, rfl, rfl, rfl, rfl, rfl, rfl, rfl, rfl, ?_, rfl⟩
+  intro hr hc
   obtain ⟨cell, a, t, ⟨st, mv, sz, an, rw, cl, vs⟩⟩ := c
-  rcases rw with _ | _ | rw <;> rcases cl with _ | _ | cl <;> simp [Comment.norm, Shape.norm, normU32]
+  simp only at hr hc
+  subst hr hc
+  rfl
 
 /-- **No comment moves, swaps or is duplicated.**  After save and reload there are as many comments as
     before, on the same cells in the same order, and the comment found on cell `k` is the comment that was
@@ -132,45 +136,135 @@ def exC4 : Comment := { cell := ⟨2, 40, false, false⟩, author := "Ann".toLis
 def exTbl : List (List Char) := ["Bob".toList, [], "Ann".toList]
 
 example : WF exTbl [exC1, exC2, exC3, exC4] ∧ reload exTbl [exC1, exC2, exC3, exC4] = some [exC1, exC2, exC3.norm, exC4] ∧
-    exC3.norm.shape.col = some (some 0) ∧ lookup [exC1, exC2, exC3, exC4] ⟨1, 1, false, false⟩ = some exC2 := by
+    exC3.norm.shape.col = some (some 16383) ∧ lookup [exC1, exC2, exC3, exC4] ⟨1, 1, false, false⟩ = some exC2 := by
   have h : WF exTbl [exC1, exC2, exC3, exC4] := by decide
   refine ⟨h, ?_, by decide, by decide⟩
   rw [C06_comment_roundtrip _ _ h]
   decide
 
-/-! ### outside `WF`: a comment whose shape has no `x:Column` -/
+/-! ### comments built without `new_comment`, comments moved after `new_comment` (were outside `WF` before
+    fixes b524a98a / 26940198: the refutation `C06_comment_no_column_target_fails` is retired) -/
 
-/-- A comment built WITHOUT `Comment::new_comment` (`Comment::default()` + coordinate) has no `x:Column` in
-    its shape.  The VML reader then takes its shape for an OLE-object shape and does not advance
-    `comment_index`: after reload the comment on A1 carries the anchor and style of the comment on C3, and C3
-    is left with the default shape — a shape moved to another comment.  (Replayed on the implementation by
-    the harness witness `c06 reset cmtw no-column-target`; known finding C06-comment-shape-without-column-target.) -/
-theorem C06_comment_no_column_target_fails :
+/-- A comment built WITHOUT `Comment::new_comment` (`Comment::default()` + coordinate) has no `x:Column` in its
+    shape.  Before fix 26940198 the VML reader took its shape for an OLE-object shape: after reload the comment
+    on A1 carried the anchor and style of the comment on C3 and C3 was left with the default shape.  Now the
+    writer names the comment's cell in every shape and both comments come back with their own shapes (the
+    first with `x:Row` 0 / `x:Column` 0).  Replayed on the implementation by `c06 reset cmtw no-column-target`. -/
+theorem C06_comment_no_column_target :
     let a : Comment := { cell := ⟨1, 1, false, false⟩, author := "Ann".toList, text := CommentText.plain "first".toList }
     let b : Comment := { cell := ⟨3, 3, false, false⟩, author := "Ann".toList, text := CommentText.plain "second".toList, shape := { style := some "visibility:hidden".toList, anchor := ⟨3, 15, 1, 8, 4, 71, 5, 15⟩, row := some (some 2), col := some (some 2) } }
-    reload ["Ann".toList] [a, b] = some [{ a with shape := b.shape }, { b with shape := {} }] ∧
-    reload ["Ann".toList] [a, b] ≠ some [a.norm, b.norm] := by
-  decide +kernel
+    reload ["Ann".toList] [a, b] = some [{ a with shape := { row := some (some 0), col := some (some 0) } }, b] := by
+  intro a b
+  rw [C06_comment_roundtrip _ _ (by decide)]
+  decide
+
+/-- A comment created on A1 and then moved to C3 through `get_coordinate_mut` (its shape still says row 0 /
+    column 0), next to a comment that IS on A1: each comes back with its own shape — the moved one's anchor
+    stays with the moved one —, the stale target replaced by the cell.  Replayed by `c06 reset cmtw stale-target`. -/
+example :
+    let a : Comment := { cell := ⟨3, 3, false, false⟩, author := "Ann".toList, text := CommentText.plain "moved".toList, shape := { anchor := ⟨1, 15, 0, 8, 2, 71, 4, 15⟩, row := some (some 0), col := some (some 0) } }
+    let b : Comment := { cell := ⟨1, 1, false, false⟩, author := "Ann".toList, text := CommentText.plain "stays".toList, shape := { anchor := ⟨7, 7, 7, 7, 7, 7, 7, 7⟩, row := some (some 0), col := some (some 0) } }
+    reload ["Ann".toList] [a, b] = some [{ a with shape := { a.shape with row := some (some 2), col := some (some 2) } }, b] := by
+  intro a b
+  rw [C06_comment_roundtrip _ _ (by decide)]
+  decide
 
 /-! ### loaded files -/
 
-/-- **The loop is a zip of the note shapes.**  For ANY comments (as the comments part gave them) and ANY
-    sequence of shapes (as the VML part gave them: note shapes, buttons, form controls, pictures in any
-    order), the reader pairs the k-th comment with the k-th shape that has an `x:Column`; comments beyond the
-    last such shape keep the default shape, surplus shapes are dropped; no comment is lost, duplicated or
-    re-ordered. -/
-theorem C06_comment_join_is_zip (cs : List Comment) (ss : List Shape) :
-    joinByPosition cs ss = zipShapes cs (ss.filter fun s => s.col.isSome) ∧
-    (joinByPosition cs ss).map (·.cell) = cs.map (·.cell) := by
-  rw [joinByPosition_zip]
-  exact ⟨rfl, zipShapes_cells cs _⟩
+/-- **Join by cell.**  For ANY comments on distinct cells (as the comments part gave them) and ANY sequence of
+    shapes (as the VML part gave them) whose note shapes — those with an `x:Column` —, in whatever order
+    (a permutation: Excel does not keep `commentList` order), name exactly the cells of the comments, with any
+    other shapes (buttons, form controls, pictures) anywhere between them: the reader's loop computes the join
+    by cell (`joinByCell`), no comment is lost, duplicated or re-ordered, and every comment ends up with a
+    shape of the part that is a note shape and names the comment's own cell. -/
+theorem C06_comment_join_by_cell (cs : List Comment) (ss : List Shape)
+    (hd : (cs.map Comment.pos).Nodup)
+    (hp : ((ss.filter (·.col.isSome)).map Shape.cell?).Perm (cs.map fun c => some c.pos)) :
+    joinShapes cs ss = joinByCell cs ss ∧
+    (joinShapes cs ss).map (·.cell) = cs.map (·.cell) ∧
+    ∀ c ∈ joinShapes cs ss, c.shape ∈ ss ∧ c.shape.col.isSome = true ∧ c.shape.cell? = some c.pos := by
+  have hsome : (cs.map fun c => some c.pos) = (cs.map Comment.pos).map some := by rw [List.map_map]; rfl
+  have h3 : ((ss.filter (·.col.isSome)).map Shape.cell?).Nodup := by
+    rw [hp.nodup_iff, hsome]; exact nodup_map_some _ hd
+  have h2 : ∀ s ∈ ss, s.col.isSome = true → ∃ k ∈ cs.map Comment.pos, s.names k = true := by
+    intro s hs hn
+    have hm : s.cell? ∈ (ss.filter (·.col.isSome)).map Shape.cell? := List.mem_map.2 ⟨s, List.mem_filter.2 ⟨hs, hn⟩, rfl⟩
+    obtain ⟨c, hc, e⟩ := List.mem_map.1 (hp.mem_iff.1 hm)
+    exact ⟨c.pos, List.mem_map.2 ⟨c, hc, rfl⟩, by simp [Shape.names, e]⟩
+  have hj : joinShapes cs ss = joinByCell cs ss := by
+    rw [joinShapes, joinByCell_eq]
+    exact joinGo_byCell _ hd ss cs 0 rfl h2 h3
+  refine ⟨hj, joinGo_cell cs 0 ss, ?_⟩
+  rw [hj, joinByCell_eq]
+  intro x hx
+  obtain ⟨c, hc, e⟩ := List.mem_map.1 hx
+  subst e
+  have hm : some c.pos ∈ (ss.filter (·.col.isSome)).map Shape.cell? := hp.mem_iff.2 (List.mem_map.2 ⟨c, hc, rfl⟩)
+  obtain ⟨s, hs, e⟩ := List.mem_map.1 hm
+  obtain ⟨hs1, hs2⟩ := List.mem_filter.1 hs
+  unfold byCell
+  cases hf : ss.find? (fun s => s.col.isSome && s.names c.pos) with
+  | none =>
+    have := List.find?_eq_none.1 hf s hs1
+    simp [Shape.names, e, hs2] at this
+  | some s' =>
+    have hmem := List.mem_of_find?_eq_some hf
+    have hprop := List.find?_some hf
+    simp only [Bool.and_eq_true, Shape.names, decide_eq_true_eq] at hprop
+    exact ⟨hmem, hprop.1, hprop.2⟩
 
-/-- **When the positional join is right.**  Under `validCommentParts` — the shapes with an `x:Column`, in
-    document order, name the cells of `commentList` in order; any other shapes may stand between them — every
+def exNote (col row : Nat) (left : Nat) : Shape := { anchor := ⟨left, 0, 0, 0, 0, 0, 0, 0⟩, row := some (some row), col := some (some col) }
+def exButton : Shape := { anchor := ⟨9, 9, 9, 9, 9, 9, 9, 9⟩ }
+def exRead (col row : Nat) : Comment := { cell := ⟨col, row, false, false⟩, author := "A".toList }
+
+/-- non-vacuity, the shape of corpus file aaa.xlsx: `commentList` F7, C20; note shapes `x:Row` 19 `x:Column` 2,
+    then `x:Row` 6 `x:Column` 5 (a button before and between them): each comment takes the shape that names its
+    cell, where the loop before fix b524a98a swapped them -/
+example :
+    (([exRead 6 7, exRead 3 20].map Comment.pos).Nodup) ∧
+    ((([exButton, exNote 2 19 11, exButton, exNote 5 6 22].filter (·.col.isSome)).map Shape.cell?).Perm
+      ([exRead 6 7, exRead 3 20].map fun c => some c.pos)) ∧
+    joinShapes [exRead 6 7, exRead 3 20] [exButton, exNote 2 19 11, exButton, exNote 5 6 22]
+      = [{ exRead 6 7 with shape := exNote 5 6 22 }, { exRead 3 20 with shape := exNote 2 19 11 }] ∧
+    joinByPosition [exRead 6 7, exRead 3 20] [exButton, exNote 2 19 11, exButton, exNote 5 6 22]
+      = [{ exRead 6 7 with shape := exNote 2 19 11 }, { exRead 3 20 with shape := exNote 5 6 22 }] := by
+  refine ⟨by decide, ?_, by decide, by decide⟩
+  exact List.Perm.swap _ _ _
+
+/-- three comments, the note shapes rotated: an instance of the theorem -/
+example : joinShapes [exRead 1 1, exRead 2 2, exRead 3 3] [exNote 1 1 22, exButton, exNote 2 2 33, exNote 0 0 11]
+      = [{ exRead 1 1 with shape := exNote 0 0 11 }, { exRead 2 2 with shape := exNote 1 1 22 }, { exRead 3 3 with shape := exNote 2 2 33 }] := by
+  decide
+
+/-- **The fallback is the zip of the note shapes.**  For ANY comments and ANY sequence of shapes the loop keeps
+    every comment on its cell in its place (nothing lost, duplicated or re-ordered), and when no shape names the
+    cell of a comment (note shapes without `x:Row`, or naming cells that carry no comment) it pairs the k-th comment
+    with the k-th shape that has an `x:Column` — the rule before fix b524a98a; comments beyond the last such shape
+    keep the default shape, surplus shapes are dropped. -/
+theorem C06_comment_join_is_zip (cs : List Comment) (ss : List Shape) :
+    (joinShapes cs ss).map (·.cell) = cs.map (·.cell) ∧
+    ((∀ s ∈ ss, ∀ c ∈ cs, s.names c.pos = false) →
+      joinShapes cs ss = zipShapes cs (ss.filter fun s => s.col.isSome) ∧ joinShapes cs ss = joinByPosition cs ss) := by
+  refine ⟨joinGo_cell cs 0 ss, fun h => ⟨joinShapes_fallback cs ss h, ?_⟩⟩
+  rw [joinShapes_fallback cs ss h, joinByPosition_zip]
+
+/-- non-vacuity: two note shapes without `x:Row` (and a button between them) go to the comments by position -/
+example :
+    let n1 : Shape := { anchor := ⟨1, 0, 0, 0, 0, 0, 0, 0⟩, col := some (some 7) }
+    let n2 : Shape := { anchor := ⟨2, 0, 0, 0, 0, 0, 0, 0⟩, col := some (some 0) }
+    (∀ s ∈ [n1, exButton, n2], ∀ c ∈ [exRead 1 1, exRead 2 2], s.names c.pos = false) ∧
+    joinShapes [exRead 1 1, exRead 2 2] [n1, exButton, n2] = [{ exRead 1 1 with shape := n1 }, { exRead 2 2 with shape := n2 }] := by
+  decide
+
+/-- **Parts in `commentList` order.**  Under `validCommentParts` — the shapes with an `x:Column`, in document
+    order, name the cells of `commentList` in order (what the library writes); any other shapes may stand between
+    them; the cells need NOT be distinct — the loop is the zip of the comments with the note shapes and every
     comment ends up with a shape that names the comment's own cell. -/
 theorem C06_comment_join_valid (cs : List Comment) (ss : List Shape) (h : validCommentParts cs ss) :
-    ∀ c ∈ joinByPosition cs ss, c.shape.cell? = some (c.cell.col, c.cell.row) := by
-  rw [joinByPosition_zip]
+    joinShapes cs ss = zipShapes cs (ss.filter fun s => s.col.isSome) ∧
+    ∀ c ∈ joinShapes cs ss, c.shape.cell? = some c.pos := by
+  refine ⟨joinShapes_valid cs ss h, ?_⟩
+  rw [joinShapes_valid cs ss h]
   unfold validCommentParts at h
   generalize ss.filter (fun s => s.col.isSome) = ns at h
   induction cs generalizing ns with
@@ -186,25 +280,15 @@ theorem C06_comment_join_valid (cs : List Comment) (ss : List Shape) (h : validC
       · subst e; exact h.1
       · exact ih q h.2 x e
 
-def exNote (col row : Nat) (left : Nat) : Shape := { anchor := ⟨left, 0, 0, 0, 0, 0, 0, 0⟩, row := some (some row), col := some (some col) }
-def exButton : Shape := { anchor := ⟨9, 9, 9, 9, 9, 9, 9, 9⟩ }
-def exRead (col row : Nat) : Comment := { cell := ⟨col, row, false, false⟩, author := "A".toList }
-
-/-- inside validity: a button between the two note shapes does not disturb the pairing -/
+/-- inside validity: a button between the two note shapes does not disturb the pairing; two comments on ONE
+    cell (not a valid sheet, but the library's own output for such a list) keep their own shapes -/
 example : validCommentParts [exRead 1 1, exRead 2 2] [exButton, exNote 0 0 11, exButton, exNote 1 1 22] ∧
-    joinByPosition [exRead 1 1, exRead 2 2] [exButton, exNote 0 0 11, exButton, exNote 1 1 22]
-      = [{ exRead 1 1 with shape := exNote 0 0 11 }, { exRead 2 2 with shape := exNote 1 1 22 }] := by
-  constructor <;> decide
-
-/-- outside validity: a (schema-valid) file that lists the shape of B2 before the shape of A1: the comment on
-    A1 gets the shape that names B2 and vice versa; a join by the cell the shape names (`joinByCell`) would
-    pair them correctly -/
-example : ¬ validCommentParts [exRead 1 1, exRead 2 2] [exNote 1 1 22, exNote 0 0 11] ∧
-    joinByPosition [exRead 1 1, exRead 2 2] [exNote 1 1 22, exNote 0 0 11]
-      = [{ exRead 1 1 with shape := exNote 1 1 22 }, { exRead 2 2 with shape := exNote 0 0 11 }] ∧
-    joinByCell [exRead 1 1, exRead 2 2] [exNote 1 1 22, exNote 0 0 11]
-      = [{ exRead 1 1 with shape := exNote 0 0 11 }, { exRead 2 2 with shape := exNote 1 1 22 }] := by
-  refine ⟨by decide, by decide, by decide⟩
+    joinShapes [exRead 1 1, exRead 2 2] [exButton, exNote 0 0 11, exButton, exNote 1 1 22]
+      = [{ exRead 1 1 with shape := exNote 0 0 11 }, { exRead 2 2 with shape := exNote 1 1 22 }] ∧
+    validCommentParts [exRead 1 1, exRead 1 1] [exNote 0 0 11, exNote 0 0 22] ∧
+    joinShapes [exRead 1 1, exRead 1 1] [exNote 0 0 11, exNote 0 0 22]
+      = [{ exRead 1 1 with shape := exNote 0 0 11 }, { exRead 1 1 with shape := exNote 0 0 22 }] := by
+  refine ⟨by decide, by decide, by decide, by decide⟩
 
 /-! ### auto filter -/
 
